@@ -34,7 +34,7 @@ def cfg_fileread(n, w, k, last, depth, readers=(1, 2), missing=(), export=True):
 
 
 FILE_INVS = {
-    "C01": ["Inv_Harness_WF", "Inv_NoPanic", "Inv_C01_Dag", "Inv_C01_Read", "Inv_C01_Whole", "Inv_C01_Open", "Inv_C01_SeekEnd"],
+    "C01": ["Inv_Harness_WF", "Inv_NoPanic", "Inv_C01_Stored", "Inv_C01_Dag", "Inv_C01_Read", "Inv_C01_Whole", "Inv_C01_Open", "Inv_C01_SeekEnd"],
     "C04": ["Inv_Harness_WF", "Inv_NoPanic", "Inv_C04_Seek", "Inv_C04_Read", "Inv_C04_NoBudget"],
     "C05": ["Inv_Harness_WF", "Inv_NoPanic", "Inv_C05_Read", "Inv_C05_Seek", "Inv_C05_Open", "Inv_C05_Subset"],
     "C06": ["Inv_Harness_WF", "Inv_NoPanic", "Inv_C06_Preload"],
@@ -52,7 +52,13 @@ ASSUME_COMMON = [
 
 def gen(ctx, binpath, name, args):
     out = ctx.path(name + ".ndjson")
-    vlib.vh(binpath, list(args) + ["-out", out])
+    try:
+        vlib.vh(binpath, list(args) + ["-out", out])
+    except vlib.Crashed as c:
+        # the library took the harness process down: that is the outcome of the case that was running
+        # (the remaining cases of this generator are lost for this run)
+        vlib.mark_crash(out, str(c))
+        ctx.notes.append(f"generator {name} was taken down by the code under test ({c}); recorded as a crash of its last case")
     return out
 
 
@@ -102,6 +108,9 @@ def hist_traces(ctx, binpath, shapes, depth, readers, opens=("direct",), small=F
     return traces
 
 
+VARIANT_WRITERS = ["own-nofs", "own-zmid", "own-zend", "own-zpb", "own-zlead", "own-wrap1"]
+
+
 def run_C01(ctx):
     b = vlib.build_harness()
     q = ctx.quick
@@ -119,6 +128,10 @@ def run_C01(ctx):
          # valid DAGs no reference writer produces: raw leaves after a dag-pb sibling; a root with a pre-1970 mtime
          gen(ctx, b, "seq_mixed", ["file-gen", "-what", "seq", "-maxn", 7 if q else 16, "-wmax", 3, "-writer", "own-mixed"]),
          gen(ctx, b, "seq_mtime", ["file-gen", "-what", "seq", "-maxn", 5 if q else 12, "-wmax", 3, "-writer", "own-mtime"])]
+    # further valid DAGs no importer writes: no FileSize; a child that holds no bytes (first, in the middle, last; raw or
+    # dag-pb); one more single-link level on top
+    for wr in VARIANT_WRITERS:
+        t.append(gen(ctx, b, "seq_" + wr, ["file-gen", "-what", "seq", "-maxn", 5 if q else 12, "-wmax", 3, "-writer", wr]))
     ctx.exhaustive = False
     decide(ctx, b, "TraceFile", FILE_INVS["C01"], t)
 
@@ -136,6 +149,10 @@ def run_C04(ctx):
     # a mixed-depth (trickle) reference DAG, and longer histories over a reduced alphabet
     t += hist_traces(ctx, b, [(7, 2, 3, 1, "boxo-trickle-raw-v1")], 2, (1, 2), opens=("direct",))
     t += hist_traces(ctx, b, [(5, 2, 3, 2, "own")] if q else [(5, 2, 3, 2, "own"), (7, 2, 3, 1, "boxo-trickle-raw-v1")], 4, (1,), opens=("direct",), small=True)
+    # the same histories on valid DAGs no importer writes (no FileSize: end-relative seeks use what the links add up to)
+    t += hist_traces(ctx, b, [(4, 2, 3, 2, "own-nofs"), (3, 2, 3, 2, "own-zmid"), (3, 2, 3, 2, "own-zlead"), (2, 2, 3, 3, "own-wrap1"),
+                              (1, 2, 3, 3, "own-wrap1")], 2, (1,), opens=("direct", "reify") if not q else ("direct",))
+    t += hist_traces(ctx, b, [(4, 4, 3, 2, "own-nofs")], 3, (1,), opens=("direct",), small="boundary")
     t.append(gen(ctx, b, "randhist", ["file-gen", "-what", "randhist", "-count", 150 if q else 3000, "-seed", ctx.seed]))
     t.append(gen(ctx, b, "random", ["file-gen", "-what", "random", "-count", 25 if q else 300, "-seed", ctx.seed + 7]))
     ctx.exhaustive = True
@@ -166,7 +183,7 @@ DIR_INVS = {
             "Inv_C02_Iter", "Inv_C02_Length"],
     "C05": ["Inv_Harness_WF", "Inv_NoPanic", "Inv_C05_Lookup", "Inv_C05_Open", "Inv_C05_NoEntryLoads"],
     "C06": ["Inv_Harness_WF", "Inv_NoPanic", "Inv_C06_Preload", "Inv_C05_NoEntryLoads"],
-    "C12": ["Inv_Harness_WF", "Inv_NoPanic", "Inv_C12_Lookup", "Inv_C12_Iter", "Inv_C12_IterTerminates"],
+    "C12": ["Inv_Harness_WF", "Inv_NoPanic", "Inv_C12_Lookup", "Inv_C12_Iter", "Inv_C12_IterTerminates", "Inv_C12_Length"],
     "C15": ["Inv_Harness_WF", "Inv_NoPanic", "Inv_C15_Iter", "Inv_C15_Length", "Inv_C15_Lookup"],
     "C20": ["Inv_Harness_WF", "Inv_NoPanic", "Inv_C20_Order", "Inv_C20_Complete"],
 }
@@ -205,9 +222,10 @@ def run_C02(ctx):
     q = ctx.quick
     vlib.model_check(ctx, "MCHamtBuild", cfg_hamtbuild(0), name="MCHamtBuild")
     vlib.model_check(ctx, "MCHamtRead", cfg_hamtread(2), name="MCHamtRead")
-    t = [dgen(ctx, b, "sets", FAN_Q if q else FAN_T, ["-orders", 4 if q else 60]),
+    t = [dgen(ctx, b, "sets", FAN_T, ["-orders", 3 if q else 60]),
          dgen(ctx, b, "random", None, ["-count", 60 if q else 4000]),
-         dgen(ctx, b, "longnames", FAN_Q if q else FAN_T),
+         dgen(ctx, b, "longnames", FAN_T),
+         dgen(ctx, b, "numeric", FAN_T),
          dgen(ctx, b, "big", None, ["-count", 4 if q else 120])]
     ctx.exhaustive = True
     decide(ctx, b, "TraceDir", DIR_INVS["C02"] + ["Inv_C02_Big"], t)
@@ -230,10 +248,11 @@ def run_C08(ctx):
     open(casefile, "w").write("\n".join(cases) + "\n")
     ctx.extra["tlc_histories_exported"] = len(r["cases"])
     ctx.extra["tlc_histories_replayed"] = len(cases)
-    t = [dgen(ctx, b, "sets", FAN_Q if q else FAN_T, ["-orders", 2 if q else 6]),
-         dgen(ctx, b, "boxo", FAN_Q if q else FAN_T),
-         dgen(ctx, b, "longnames", FAN_Q if q else FAN_T),
-         dgen(ctx, b, "hist", "8,16,256" if q else FAN_T, ["-cases", casefile]),
+    t = [dgen(ctx, b, "sets", FAN_T, ["-orders", 2 if q else 6]),
+         dgen(ctx, b, "boxo", FAN_T),
+         dgen(ctx, b, "longnames", FAN_T),
+         dgen(ctx, b, "numeric", FAN_T),
+         dgen(ctx, b, "hist", FAN_T, ["-cases", casefile]),
          dgen(ctx, b, "random", None, ["-count", 40 if q else 600])]
     ctx.exhaustive = True
     decide(ctx, b, "TraceDir", DIR_INVS["C08"], t)
@@ -244,8 +263,9 @@ def run_C15(ctx):
     q = ctx.quick
     vlib.model_check(ctx, "MCHamtRead", cfg_hamtread(2), name="MCHamtRead")
     t = [dgen(ctx, b, "raw", None, ["-maxlen", 3 if q else 4]),
-         dgen(ctx, b, "sets", "8,256" if q else FAN_T, ["-orders", 1]),
-         dgen(ctx, b, "boxo", "8,256" if q else FAN_T)]
+         dgen(ctx, b, "sets", FAN_T, ["-orders", 1]),
+         dgen(ctx, b, "boxo", FAN_T),
+         dgen(ctx, b, "numeric", "8,256,1024")]
     ctx.exhaustive = True
     decide(ctx, b, "TraceDir", DIR_INVS["C15"], t)
 
@@ -328,12 +348,15 @@ def run_C10(ctx):
     b = vlib.build_harness()
     q = ctx.quick
     vlib.model_check(ctx, "MCHamtBuild", cfg_hamtbuild(0), name="MCHamtBuild")
-    t = [bgen(ctx, b, "dirs", ["-fanouts", "8,256" if q else FAN_T, "-orders", 6 if q else 24, "-repeat", 3 if q else 20]),
+    t = [bgen(ctx, b, "dirs", ["-fanouts", FAN_T, "-orders", 4 if q else 24, "-repeat", 3 if q else 20]),
          bgen(ctx, b, "frag", ["-maxn", 7 if q else 10, "-count", 10 if q else 200]),
          bgen(ctx, b, "misc", []),
          bgen(ctx, b, "mixdir", ["-repeat", 3 if q else 12]),
          bgen(ctx, b, "hashers", ["-orders", 6 if q else 24, "-repeat", 3 if q else 10]),
-         bgen(ctx, b, "files", ["-maxn", 6 if q else 12, "-wmax", 3, "-repeat", 2])]
+         bgen(ctx, b, "files", ["-maxn", 6 if q else 12, "-wmax", 3, "-repeat", 2]),
+         # recursive imports: repeated, from another place on disk, with the root spelled as a relative path
+         bgen(ctx, b, "trees", ["-count", 25 if q else 300]),
+         bgen(ctx, b, "random", ["-count", 10 if q else 100])]
     ctx.exhaustive = True
     decide(ctx, b, "TraceBuild", BUILD_INVS["C10"], t)
 
@@ -344,10 +367,13 @@ def run_C11(ctx):
     vlib.model_check(ctx, "FileBuild", cfg_filebuild(16 if q else 40, [2, 3, 4], invs=["Inv_C11_Sizes"], props=()), name="FileBuild_C11")
     t = [bgen(ctx, b, "files", ["-maxn", 16 if q else 60, "-wmax", 4 if q else 6]),
          bgen(ctx, b, "dedup", ["-maxn", 5 if q else 6, "-wmax", 3]),
-         bgen(ctx, b, "dirs", ["-fanouts", "8,256" if q else FAN_T, "-orders", 1, "-repeat", 0]),
+         bgen(ctx, b, "dirs", ["-fanouts", FAN_T, "-orders", 1, "-repeat", 0]),
          bgen(ctx, b, "trees", ["-count", 12 if q else 150]),
          bgen(ctx, b, "misc", []),
-         bgen(ctx, b, "random", ["-count", 25 if q else 400])]
+         bgen(ctx, b, "random", ["-count", 25 if q else 400]),
+         bgen(ctx, b, "threshold", []),
+         bgen(ctx, b, "quicktrees", []),
+         bgen(ctx, b, "chunkers", [])]
     ctx.exhaustive = True
     decide(ctx, b, "TraceBuild", BUILD_INVS["C11"], t)
 
@@ -359,9 +385,10 @@ def run_C16(ctx):
                      name="FileBuild_C16")
     vlib.model_check(ctx, "MCHamtBuild", cfg_hamtbuild(3 if q else 6), name="MCHamtBuild_faults")
     t = [bgen(ctx, b, "files", ["-maxn", 10 if q else 30, "-wmax", 3 if q else 4, "-faults"]),
-         bgen(ctx, b, "dirs", ["-fanouts", "8" if q else "8,16,256,1024", "-orders", 1, "-repeat", 2, "-faults"]),
+         bgen(ctx, b, "dirs", ["-fanouts", "8,64,512" if q else FAN_T, "-orders", 1, "-repeat", 2, "-faults"]),
          bgen(ctx, b, "trees", ["-count", 10 if q else 100, "-faults"]),
          bgen(ctx, b, "mixdir", ["-faults", "-repeat", 0, "-maxn", 12]),
+         bgen(ctx, b, "quicktrees", []),
          bgen(ctx, b, "misc", [])]
     ctx.exhaustive = True
     decide(ctx, b, "TraceBuild", BUILD_INVS["C16"], t, extras=["Inv_X_ReaderFailure"])
@@ -468,7 +495,8 @@ def run_C18(ctx):
     vlib.model_check(ctx, "Import", open(vlib.os.path.join(vlib.SPEC, "Import.cfg")).read(), name="Import")
     t = [gen(ctx, b, "import_enum", ["import-gen", "-what", "enum"]),
          gen(ctx, b, "import_random", ["import-gen", "-what", "random", "-count", 40 if q else 600, "-seed", ctx.seed]),
-         gen(ctx, b, "import_wide", ["import-gen", "-what", "wide"])]
+         gen(ctx, b, "import_wide", ["import-gen", "-what", "wide"]),
+         gen(ctx, b, "import_special", ["import-gen", "-what", "special"])]
     ctx.exhaustive = True
     decide(ctx, b, "TraceImport", ["Inv_NoPanic", "Inv_NoHang", "Inv_Harness_Walk", "Inv_C18_Reject", "Inv_C18_Tree", "Inv_C18_Shard", "Inv_C18_Big"], t)
 
@@ -584,7 +612,7 @@ def run_C17(ctx):
     ctx.extra["race_detector_reports"] = total_races
     ctx.extra["repetitions_per_scenario"] = reps
     # every call returns what it returns when run alone
-    decide(ctx, b, "TraceDir", ["Inv_Harness_WF", "Inv_NoPanic", "Inv_C02_Lookup", "Inv_C02_Iter", "Inv_C02_Length", "Inv_C17_NoRace", "Inv_C17_MissingShard"], traces_dir)
+    decide(ctx, b, "TraceDir", ["Inv_Harness_WF", "Inv_NoPanic", "Inv_C02_Lookup", "Inv_C02_Iter", "Inv_C02_Length", "Inv_C02_Big", "Inv_C17_NoRace", "Inv_C17_MissingShard"], traces_dir)
     decide(ctx, b, "TraceFile", ["Inv_Harness_WF", "Inv_NoPanic", "Inv_C01_Read", "Inv_C01_Whole", "Inv_C01_Open", "Inv_C04_Seek"], traces_file)
 
 
@@ -652,6 +680,12 @@ F_PRELOAD_INLINE = ("preload", ["-maxn", "6", "-wmax", "3", "-writer", "own-inli
 F_SEQ_MIXED = ("seq", ["-maxn", "7", "-wmax", "3", "-writer", "own-mixed"], ["-maxn", "16", "-wmax", "4", "-writer", "own-mixed"])
 F_RANGE_MIXED = ("range", ["-maxn", "6", "-wmax", "3", "-writer", "own-mixed"], ["-maxn", "10", "-wmax", "4", "-writer", "own-mixed"])
 F_REPEAT = ("seqrepeat", [], [])
+
+
+def f_variants(what, qn, tn, writers=None):
+    """the same generator over the valid-but-unusual writer variants (VARIANT_WRITERS)"""
+    return [(what, ["-maxn", str(qn), "-wmax", "3", "-writer", wr], ["-maxn", str(tn), "-wmax", "4", "-writer", wr])
+            for wr in (writers or VARIANT_WRITERS)]
 
 TECH_BUILD = ("explicit TLA+ spec (FileBuild, HamtBuild) model-checked by TLC incl. every injected write failure; the real builders "
               "run on a storage wrapper that records every write-open/commit; each build's write sequence, parsed independently "
@@ -795,7 +829,7 @@ PLANS = {
              "the FileRead machine to depth 2 (thorough: 3) on single-block, wrapped and multi-level files and checks the "
              "io.ReadSeeker invariants and reader independence on the model; each history is replayed on real readers and "
              "the recorded trace validated by TLC (Inv_C04_*), plus long random histories."),
-    "C05": P(run_mixed("C05", [F_RANGE, F_SEQ, F_WRITERS, F_RANGE_MIXED], [("sets", "8,256", FAN_T), ("coldlookups", "8,16,256", FAN_T), ("faults", "8", "8,16,256"), ("boxo", "8,256", FAN_T)]),
+    "C05": P(run_mixed("C05", [F_RANGE, F_SEQ, F_WRITERS, F_RANGE_MIXED] + f_variants("range", 5, 9), [("sets", FAN_T, FAN_T), ("coldlookups", FAN_T, FAN_T), ("faults", "8", "8,16,256"), ("boxo", FAN_T, FAN_T)]),
              "TLC proves on FileRead/HamtRead that the lazy algorithms only load blocks whose span intersects the requested "
              "range / shards on the name's digit path; on the real code every range [a,b) of every enumerated file shape and "
              "every member and non-member lookup of every enumerated HAMT is run, and each recorded load is checked by TLC "
@@ -807,7 +841,7 @@ PLANS = {
              "stored structure is checked by TLC to be Canon(entries); every TLC history is applied to a real boxo shard and "
              "the result read back with this library (lookups, iteration, length) and validated against the model's set.",
              rule=RULE_DIR, technique=TECH_DIR, note=NOTE_DIR + "; CID equality itself is compared in Go"),
-    "C12": P(run_mixed("C12", [F_FAULT], [("faults", "8,16", "8,16,256,1024")]),
+    "C12": P(run_mixed("C12", [F_FAULT], [("faults", "8,16,128,1024", FAN_T)]),
              "exhaustive single-block unavailability and k-th-load failure (both error kinds) on every enumerated file "
              "shape and HAMT; TLC validates that reads return exactly the bytes before the missing span and then the load "
              "error, never EOF; that lookups crossing a missing shard report the error, not not-found; that iteration "
@@ -818,12 +852,12 @@ PLANS = {
              "iteration count = Length, over-read errors, every key resolves to the first link yielded under it, unknown keys "
              "are not found, all four lookup entry points agree - validated by TLC (Inv_C15_*).",
              rule=RULE_DIR, technique=TECH_DIR, note=NOTE_DIR),
-    "C20": P(run_mixed("C20", [F_SEQ, F_PRELOAD, F_SEQ_MIXED, F_PRELOAD_MIXED, F_REPEAT], [("seq", "8,16", FAN_T)]),
+    "C20": P(run_mixed("C20", [F_SEQ, F_PRELOAD, F_SEQ_MIXED, F_PRELOAD_MIXED, F_REPEAT] + f_variants("seq", 5, 10, VARIANT_WRITERS + ["own-shortfs"]) + f_variants("preload", 5, 10, VARIANT_WRITERS + ["own-shortfs"]), [("seq", FAN_T, FAN_T)]),
              "first-request order of cold sequential reads / preloads of every enumerated file shape and of cold iteration, "
              "length and preload of every enumerated HAMT (own and reference-written) is validated by TLC to be a prefix of "
              "- and on completion equal to - the pre-order of the walker's block/shard table (Inv_C20_*).",
              rule=RULE_MIX, technique=TECH_MIX),
-    "C06": P(run_mixed("C06", [F_PRELOAD, F_PRELOAD_NOBS, F_PRELOAD_MIXED, F_PRELOAD_MTIME, F_PRELOAD_INLINE], [("preload", "8,16", "8,16,256,1024")]),
+    "C06": P(run_mixed("C06", [F_PRELOAD, F_PRELOAD_NOBS, F_PRELOAD_MIXED, F_PRELOAD_MTIME, F_PRELOAD_INLINE] + f_variants("preload", 6, 12, VARIANT_WRITERS + ["own-shortfs"]), [("preload", "8,16,64,512", FAN_T)]),
              "for every enumerated file shape and HAMT: the preload reifier is run with no fault and with each single block "
              "of the entity unavailable; TLC validates loads = all blocks of the entity, none of the entries' blocks, and an "
              "error whenever a block is missing (Inv_C06_*).", rule=RULE_MIX, technique=TECH_MIX),
